@@ -41,7 +41,7 @@ PID = 'C08'
 #            cases  max_depth  processes  per-case watchdog (s)
 TIERS = {
     'quick': dict(cases=640, max_depth=70, procs=8, watchdog=120),
-    'thorough': dict(cases=6400, max_depth=300, procs=12, watchdog=300),
+    'thorough': dict(cases=4000, max_depth=300, procs=12, watchdog=300),
 }
 # relative frequency of each partitioner among the cases
 WEIGHTS = [
